@@ -141,6 +141,8 @@ def run(ctx, chk):
         okq = byf.get("quantity_executed") == [("fetch_add", qty)]
         v = byf.get("value_executed")
         okv = v is not None and len(v) == 1 and v[0][0] == "fetch_add" and v[0][1] in (("bin", "Mul", qty, price), ("bin", "Mul", price, qty))
+        if r.facts.known_zero(qty) and "quantity_executed" not in byf and "value_executed" not in byf:
+            okq = okv = True     # quantity == 0 on this path: both updates would add 0 and may be skipped
         chk.require(okq, "H2", bb.defp + ":quantity_executed", bb.span, "quantity_executed updated by %s" % [(op, short(x)) for op, x in byf.get("quantity_executed", [])], describe_path(r))
         chk.require(okv, "H2", bb.defp + ":value_executed", bb.span, "value_executed updated by %s" % [(op, short(x)) for op, x in byf.get("value_executed", [])], describe_path(r))
         for f in ("orders_added", "orders_removed"):
